@@ -2,6 +2,7 @@
 converters and validators, so a variant exists only if the library lets a caller construct it)."""
 import datetime
 import enum
+import ipaddress
 
 import attr
 
@@ -43,6 +44,17 @@ def _values_for(value, rng, pool):
         if value.tzinfo is None:
             vals = [(l, v.astimezone(utc).replace(tzinfo=None)) for l, v in vals[:3]]
         return vals
+    if isinstance(value, (ipaddress.IPv4Network, ipaddress.IPv6Network)):
+        # every prefix length that is a boundary in either family (an IPv6 /32, an IPv4 /31, the single host, everything)
+        v6 = isinstance(value, ipaddress.IPv6Network)
+        base = int(value.network_address)
+        top = 128 if v6 else 32
+        nets = []
+        for plen in (0, 1, 8, 24, 31, 32, 33, 64, 127, 128):
+            if plen <= top:
+                masked = base >> (top - plen) << (top - plen) if plen else 0
+                nets.append(('prefix%d' % plen, type(value)((masked, plen))))
+        return [(l, n) for l, n in nets if n != value]
     if isinstance(value, datetime.timedelta):
         return [('zero', datetime.timedelta(0)), ('1s', datetime.timedelta(seconds=1)), ('400d', datetime.timedelta(days=400))]
     if isinstance(value, ArrayBase):
